@@ -800,6 +800,9 @@ var reserved = asSet(
 
 	// Textmapper-reserved
 	"Token", "Nonterminal", "Pos", "Node", "Offset", "Endoffset", "Start", "End",
+
+	// Methods of the generated ast.Node that the field accessors themselves call.
+	"Child", "Children",
 )
 
 func asSet(list ...string) map[string]bool {
